@@ -461,6 +461,11 @@ class Process:
             # APIs which don't use _raise_if_pid_reused().
             msg = "process no longer exists and its PID has been reused"
             raise NoSuchProcess(self.pid, self._name, msg=msg)
+        if self._gone:
+            # The process is known to be gone, and is_running() will
+            # not look at the PID again: from now on it may be assigned
+            # to another process at any time, so never act on it.
+            raise NoSuchProcess(self.pid, self._name)
 
     @property
     def pid(self):
